@@ -55,6 +55,13 @@ def _check_case(intervals, probes):
     # values include None and other falsy objects: membership is about the key, never about the value
     vals = [None, 0, "", False, (), 0.0]
     mapping = {iv: (f"v{i}" if (i + len(intervals)) % 3 else vals[i % len(vals)]) for i, iv in enumerate(intervals)}
+    if len(intervals) % 4 == 3:
+        # values are opaque objects: plain instances (equal only to themselves) and objects that cannot be copied
+        import threading
+        opaque = [object(), threading.Lock(), type("V", (), {})()]
+        for i, iv in enumerate(intervals):
+            if i % 2 == 0:
+                mapping[iv] = opaque[i % 3]
     got = outcome(lambda: ImmutIntervalMap(mapping))
     ok = valid(intervals)
     if not ok:
@@ -107,6 +114,19 @@ def _check_case(intervals, probes):
                 if g != ("ok", bool(hits)):
                     return "membership", (f"{k} in ImmutIntervalMap({mapping}) -> {g}, expected {bool(hits)} (previous "
                                           f"lookups: {history[-6:-1]})")
+    # keys of the other exact numeric types answer like the int / float they equal
+    from decimal import Decimal
+    from fractions import Fraction
+    for k in probes:
+        if k != k or k in (float("inf"), float("-inf")):
+            continue
+        hits = [mapping[(s, e)] for s, e in intervals if s <= k <= e]
+        want = ("ok", hits[0]) if hits else ("exc", "KeyError")
+        for conv in (Decimal, Fraction):
+            kk = conv(k)
+            g, gin = outcome(lambda: m[kk]), outcome(lambda: kk in m)
+            if g != want or gin != ("ok", bool(hits)):
+                return "lookup", (f"ImmutIntervalMap({mapping})[{kk!r}] -> {g}, `in` -> {gin}; the equal key {k!r} gives {want}")
     if len(m) != len(intervals) or outcome(lambda: list(m)) != ("ok", want_it):
         return "iteration", "len/iteration changed after lookups"
     return None
